@@ -22,11 +22,12 @@ CLAIMED = {
     "C13": dict(
         text=("Machine-checked proof of the domain laws. For the scalar kinds the theorems are about the methods REGENERATED from models.py "
               "(ContinuousVariable/DiscreteVariable/PermutationVariable correct, decode, get_bounds, validators): correct maps every non-NaN "
-              "input (incl. +-inf) into the domain, fixes members, is idempotent; decode of a corrected value is the declared choice / the label "
-              "order of the corrected permutation; for permutations the laws hold for EVERY valid numpy argsort (ties broken any way). "
+              "input (incl. +-inf) into the domain, fixes members, is idempotent; decode of a corrected value is the declared choice; for permutations the laws hold for EVERY valid numpy argsort (ties broken any way) "
+              "and decode - end to end over the REGENERATED LabelEncoder (fit, transform, inverse_transform) and the variable's label table - is a rearrangement of the "
+              "declared items for EVERY item list, repeated items included (the theorem that needed NoDup exposed the defect repaired in a2d4278). "
               "Multi-variables, random sampling and multi-variable validators: same laws proved on the hand model (Vars.v), tied to the code by "
               "vm_compute correspondence on generated definitions and values (boundary, +-1ulp, huge, inf, numpy scalars, ties)."),
-        note=TB + " Inputs to correct are non-NaN; bounds finite; choice lists non-empty; items distinct. numpy's uniform/choice/permutation "
+        note=TB + " Inputs to correct are non-NaN; bounds finite; choice lists non-empty; labels modulo Python's == with the sort key a total order (hypotheses of the two order theorems only). numpy's uniform/choice/permutation "
                   "ranges are the hypothesis draw_ok of the sampling theorem (sampled differentially).",
         technique="Coq proof over regenerated Gallina (T-core) + hand model; bridge lemmas; vm_compute correspondence",
         design="§7 C13"),
@@ -85,7 +86,7 @@ CLAIMED = {
         text=("PARTIAL proof. Proved (Coq): for ALL 84 exported optimizers (each reaches the objective only through _init_agent: regenerated fact, no "
               "exception) every argument objective_function is ever called with - discarded candidates included - is a member of the search space, "
               "given H_raw; the regenerated solve/_fcn pass the CORRECTED argument. NOT proved: H_raw; its violations (NaN candidates) are exactly C05 "
-              "violations (lemma nan_candidate_not_in_space) and are found by the recording-objective search: three known findings."),
+              "violations (lemma nan_candidate_not_in_space) and are found by the recording-objective search, the edge suite and the degenerate-population campaign: eight known findings."),
         note=TB + " Worker processes record to per-process files; H_raw is a hypothesis monitored by search.",
         technique="Coq proof (calls invariant of the provenance machine) + recording-objective search over all optimizers and modes",
         design="§7 C05"),
@@ -110,11 +111,11 @@ CLAIMED = {
         technique="Coq proof (append-only heap; sorted-list ranking) + vm_compute correspondence + snapshot search",
         design="§7 C15"),
     "C17": dict(
-        text=("Proof (Coq): for every optimizer in the pinned structurally-elitist set (54; the set is recomputed from the source on every run and must "
+        text=("Proof (Coq): for every optimizer in the pinned structurally-elitist set (56; the set is recomputed from the source on every run and must "
               "contain the pinned one) and every step that edits the population only through its listed writes, each generation contains an agent at "
               "least as good as every agent of every earlier generation, on internal costs and - via the sign restoration - in the task's direction for "
-              "min and max alike; hence best_solution is the best ever recorded. Uses the regenerated greedy/trim helpers (C16). 17 further optimizers, elitist by observation "
-              "only (monotone in >= 950 runs each on the pinned tree), are covered by SEARCH ONLY, pinned by the hash of their source; fresh and reused instances."),
+              "min and max alike; hence best_solution is the best ever recorded. Uses the regenerated greedy/trim helpers (C16). 14 further optimizers, elitist by observation "
+              "only (monotone in >= 950 runs each on the pinned tree), are covered by SEARCH ONLY, pinned by the hash of their source; fresh and reused instances, noisy / stateful objectives (a kept agent keeps the cost recorded when it was built)."),
         note=TB + " Classification is conservative (syntactic); step_conforms is a hypothesis; no NaN costs; population_size >= 1.",
         technique="Coq proof (keeps_best for each elitist population write, induction over writes and cycles) + search over the elitist set",
         design="§7 C17"),
